@@ -241,3 +241,54 @@ func HarnessC07Fields() {
 	}
 	verifCheck(n >= 1, "malformed-placeholder-not-reported-exactly-once")
 }
+
+// HarnessC07Untrusted: the "potentially untrusted" diagnostic of a run: script
+// sits at the first token of the untrusted access, also when harmless accesses
+// to the same context come before it in the same placeholder.
+func HarnessC07Untrusted() {
+	exprs := []struct {
+		text   string
+		offset int
+	}{
+		{" github.head_ref ", 1}, {"github.event_name == 'pull_request' && github.head_ref", 39}, {" github.sha || github.event.issue.title", 15},
+		{"format('{0}{1}', github.ref_name, github.event.pull_request.body)", 34}, {"github.event.issue.number > 1 && github.event.issue.title", 33},
+	}
+	x := exprs[verifChoose("expr", len(exprs))]
+	line, col := verifSymInt("line"), verifSymInt("col")
+	verifAssume(verifAnd(verifAnd(1 <= line, line < 1<<40), verifAnd(1 <= col, col < 1<<40)))
+	quoted := verifSymBool("quoted")
+	rule := NewRuleExpression(NewLocalActionsCache(nil, nil), NewLocalReusableWorkflowCache(nil, "/", nil))
+	rule.checkScriptString(&String{Value: "echo ${{" + x.text + "}}", Quoted: quoted, Pos: &Pos{line, col}}, "jobs.<job_id>.steps.run")
+	errs := rule.Errs()
+	verifReach("checked")
+	verifCheck(len(errs) == 1, "malformed-placeholder-not-reported-exactly-once")
+	want := verifIteInt(quoted, col+5+3+x.offset+1, col+5+3+x.offset)
+	for _, e := range errs {
+		verifCheck(e.Line == line && e.Column == want, "diagnostic-column-is-not-the-offending-token")
+	}
+}
+
+// HarnessC07RunnerLabel: `runs-on: ${{ matrix.os }}` with an unknown label among
+// the matrix values — in the row or in an include entry, at a symbolic
+// position: the runner-label diagnostic sits at that value.
+func HarnessC07RunnerLabel() {
+	s := yScalar
+	bad := s("ubuntu-oldest")
+	var matrix *yaml.Node
+	if verifChoose("where", 2) == 1 {
+		matrix = yMap(s("os"), ySeq(s("ubuntu-latest")), s("include"), ySeq(yMap(s("os"), bad)))
+	} else {
+		matrix = yMap(s("os"), ySeq(s("ubuntu-latest"), bad))
+	}
+	doc := yDoc(yMap(s("on"), s("push"), s("jobs"), yMap(s("j"), yMap(s("runs-on"), s("${{ matrix.os }}"), s("strategy"), yMap(s("matrix"), matrix), s("steps"), ySeq(yMap(s("run"), s("echo")))))))
+	verifPlace(doc, 1, 0)
+	line, col := verifSymInt("line"), verifSymInt("col")
+	verifAssume(verifAnd(verifAnd(100 <= line, line < 1<<40), verifAnd(1 <= col, col < 1<<40)))
+	bad.Line, bad.Column = line, col
+	errs := verifLintNode(doc, []Rule{NewRuleRunnerLabel()})
+	verifReach("checked")
+	verifCheck(len(errs) == 1, "malformed-placeholder-not-reported-exactly-once")
+	for _, e := range errs {
+		verifCheck(e.Line == line && e.Column == col, "diagnostic-column-is-not-the-offending-token")
+	}
+}
